@@ -20,7 +20,7 @@ REQUIRED = [
     # the tableau contract (all n, any commutative ring with LawfulAmp)
     "pauli_matrix_action", "normalize_preserves_stabilized", "apply_gate_stabilizes", "measure_random_sound",
     "collapse_sound", "deterministic_of_zrow", "reachable_sound", "tableau_contract_partial",
-    "detshape_core_no_anticentral",
+    "detshape_core_no_anticentral", "stabHyps_partial",
     # finite, kernel-checked (n <= 2)
     "enum_card", "enum_is_closure", "exhaustive_gates_n2", "exhaustive_measure_n2", "exhaustive_reset_partial_n2",
     "exhaustive_canonical_n2", "equal_states_identical_tableau_n2", "history_independent_n2",
